@@ -96,6 +96,42 @@ func init() {
 				nAuth++
 			}
 		}
+		// per received CAP line: the exact output discipline of the property
+		for sti, st := range steps {
+			if st[0] != 'R' {
+				continue
+			}
+			e := girc.ParseEvent(st[1:])
+			outs, ok := cmp.PerStep[sti]
+			if e == nil || e.Command != "CAP" || len(e.Params) < 2 || !ok || sc.DisableTracking {
+				continue
+			}
+			var capOut []string
+			for _, l := range outs {
+				if strings.HasPrefix(l, "CAP ") || strings.HasPrefix(l, "AUTHENTICATE ") {
+					capOut = append(capOut, canonLine(l))
+				}
+			}
+			sub := e.Params[1]
+			switch {
+			case (sub == "LS" || sub == "NEW") && len(e.Params) >= 4:
+				if len(capOut) != 0 {
+					c.R.Violation("c08.continuation_silent", hin, fmt.Sprintf("%q", capOut), "[]", "the client answered a CAP LS continuation line: "+q(st[1:]))
+				}
+			case (sub == "LS" || sub == "NEW") && len(e.Params) == 3:
+				if len(capOut) != 1 || !(strings.HasPrefix(capOut[0], "CAP REQ") || capOut[0] == "CAP END") {
+					c.R.Violation("c08.final_ls_one", hin, fmt.Sprintf("%q", capOut), "exactly one REQ or END", "the final LS line was not answered by exactly one CAP REQ or CAP END: "+q(st[1:]))
+				}
+			case sub == "NAK":
+				if len(capOut) != 1 || capOut[0] != "CAP END" {
+					c.R.Violation("c08.nak_one_end", hin, fmt.Sprintf("%q", capOut), "[CAP END]", "a NAK was not answered by exactly one CAP END")
+				}
+			case sub == "ACK" && len(e.Params) == 3 && cmp.ImplEnd == "running":
+				if len(capOut) != 1 || !(capOut[0] == "CAP END" || strings.HasPrefix(capOut[0], "AUTHENTICATE ")) {
+					c.R.Violation("c08.ack_one", hin, fmt.Sprintf("%q", capOut), "exactly one END or AUTHENTICATE", "an ACK was not answered by exactly one CAP END or the start of authentication")
+				}
+			}
+		}
 		if sc.DisableTracking && (nReq+nEnd) > 0 {
 			c.R.Violation("c08.tracking_disabled", hin, fmt.Sprint(cmp.ImplW), "", "CAP lines written although tracking is disabled")
 		}
